@@ -4,6 +4,7 @@ import numpy
 from .redfieldfoerster import RedfieldFoersterRelaxationTensor
 from .tdredfieldtensor import TDRedfieldRelaxationTensor
 from .tdfoerstertensor import _td_reference_implementation as td_foerster_rates
+from .tdfoerstertensor import _td_fintegral
 from ..corfunctions.correlationfunctions import c2g
 #from ...core.managers import Manager
 from ...core.managers import energy_units
@@ -157,7 +158,7 @@ class TDRedfieldFoersterRelaxationTensor(RedfieldFoersterRelaxationTensor,
             #
             # Foerster rates
             #
-            KF = td_foerster_rates(Na, Nt, hh, tt, gvals, lamb)
+            KF = td_foerster_rates(Na, Nt, hh, tt, gvals, lamb, _td_fintegral)
 
 #            nham = Hamiltonian(data=hh)
 #            with energy_units("1/cm"):
